@@ -19,9 +19,6 @@ def NonNeg (s : St α) : Prop := ∀ t, ∀ i ∈ shieldsOf s t, 0 ≤ i.hp
 def removedEv? : Ev α → Option (Int × Int)
   | .removed k t => some (k, t)
   | _ => none
-def retEv? : Ev α → Option α
-  | .ret o => some o
-  | _ => none
 
 /-- the (key, unit) pairs announced as removed, in order -/
 def removedOf (evs : List (Ev α)) : List (Int × Int) := evs.filterMap removedEv?
